@@ -1324,4 +1324,211 @@ Proof.
         apply in_map_iff. exists (amsg o). split; [reflexivity|]. apply in_flat_map. exists (ent g). split; [apply in_map; exact Hgg|cbn [ent Abs.eouts]; apply in_map; exact Ho].
   - change (k_next w') with (k_next w4). rewrite Q6. change (k_next w3) with (k_next w1). rewrite En. exact Hn.
 Qed.
+
+(* ---------- process_msg: one abstract step, or none ---------- *)
+Lemma process_msg_sim w a : R w a -> exists a', (a' = a \/ astep a a') /\ R (process_msg p ck w) a'.
+Proof.
+  intros Hr. pose proof Hr as [F Hlen Hg [He0 Hel] M0 N5 Hre Hh Hp Ha Hn].
+  destruct (process_msg_full p ck H_time H_type H_dest w F ltac:(rewrite Hlen; reflexivity)) as [F' _].
+  revert F'. unfold process_msg.
+  pose proof (extract_spec w (f_good p w F)) as Hex. pose proof (extract_perm w) as Hperm. pose proof (extract_frame w) as Hfr.
+  destruct (wq_extract w) as [[m|] w1]; cbn [snd] in Hfr; cbn zeta in Hfr; destruct Hfr as (Ef & Enx & Eg & Elps & Eerr & Eep).
+  2:{ intros F'. exists a. split; [left; reflexivity|]. apply (R_perm w w1 a Hr F' Hperm); assumption. }
+  destruct Hex as (G1 & _).
+  assert (Hmin : In m (pend w)) by (apply (Permutation_in _ (Permutation_sym Hperm)); left; reflexivity).
+  destruct (f_extra p w F) as [Hxp _]. destruct (Hxp m Hmin) as [_ Hdl]. rewrite Hlen in Hdl.
+  set (l := N.to_nat (e_dest (wm_ev m))) in *.
+  assert (Eepoch : Nat.eqb (x_epoch (get_lp w1 l)) (k_epoch w1) = true).
+  { rewrite Eep, He0. unfold get_lp. rewrite Elps. fold (get_lp w l). rewrite (Hel l Hdl). reflexivity. }
+  rewrite Eepoch. unfold flag_add. fold (fl (k_flags w1) m). rewrite Ef.
+  pose proof (once_loc w F Hg) as L.
+  destruct (l_pd _ _ _ _ _ _ L m Hmin) as [[Hf Hin]|[[Hf|Hf] Hnin]]; rewrite Hf.
+  - (* the notice of a processed message *)
+    change (has 3 FLAG_ANTI) with true. change (N.eqb 3 (FLAG_ANTI + FLAG_PROC)) with true. change (m32 (3 + FLAG_PROC)) with 5%N. cbn iota.
+    rewrite <- Ef.
+    destruct (anti_index m (x_hist (get_lp (set_flags w1 (flag_set (k_flags w1) (wm_id m) 5)) l))) as [past|] eqn:Ea.
+    + intros F'. destruct (sim_cancel w a w1 m Hr Hperm Ef Enx Eg Elps Eep Hf past Ea F') as (a' & Hs & Hr'). exists a'. split; [right; exact Hs|exact Hr'].
+    + intros F'. exfalso. pose proof (f_err p _ F') as He. cbn in He. discriminate.
+  - (* an ordinary message *)
+    change (has 0 FLAG_ANTI) with false. change (m32 (0 + FLAG_PROC)) with 2%N. cbn iota. rewrite <- Ef.
+    intros F'. destruct (sim_process w a w1 m Hr Hperm Ef Enx Eg Elps Eep Eerr G1 Hf F') as (a' & Hs & Hr'). exists a'. split; [right; exact Hs|exact Hr'].
+  - (* cancelled while pending *)
+    change (has 1 FLAG_ANTI) with true. change (N.eqb 1 (FLAG_ANTI + FLAG_PROC)) with false. change (m32 (1 + FLAG_PROC)) with 3%N. cbn iota. rewrite <- Ef.
+    intros F'. destruct (sim_drop w a w1 m Hr Hperm Ef Enx Eg Elps Eep Hf F') as (a' & Hs & Hr'). exists a'. split; [right; exact Hs|exact Hr'].
+Qed.
+
+(* ---------- the initial state ---------- *)
+Definition ini2 (w : worker) : Prop :=
+  k_epoch w = 0 /\ (forall y, In y (pend w) -> fl (k_flags w) y = 0%N) /\ (forall y, In y (allprocs (k_lps w)) -> fl (k_flags w) y = 2%N) /\
+  (forall y, In y (allmarks (k_lps w)) -> In y (pend w)) /\
+  (forall l, l < length (k_lps w) -> exists ms im, x_hist (get_lp w l) = flat [(ms, im)] /\ is_init im /\
+                                                 base (get_lp w l) = (S (length ms), AppAbs.s0 p l) /\ x_epoch (get_lp w l) = 0).
+
+Lemma init_lp_ini2 w : ini w -> ini2 w -> ini2 (init_lp p w (length (k_lps w))).
+Proof.
+  intros (HL & _ & _ & _) (E0 & P0 & P2 & PM & PH). set (l := length (k_lps w)). unfold init_lp.
+  assert (Es0 : AppAbs.s0 p l = fst (lp_init p (N.of_nat l))) by reflexivity.
+  destruct (lp_init p (N.of_nat l)) as [st evs]. cbn [fst] in Es0.
+  set (im := mkWm (k_next w) (mkEv (N.of_nat l) 0 LP_INIT_TYPE [])).
+  match goal with |- context [send_all ?w0 evs []] => set (w0' := w0) end.
+  destruct (send_all_exact evs w0' []) as (X1 & X2 & X3 & X4 & X5 & X6 & X7 & X8). cbn zeta in *.
+  destruct (send_all w0' evs []) as [w1 marks]. cbn [fst snd rev app] in *. subst marks.
+  change (k_next w0') with (Pos.succ (k_next w)) in *. change (pend w0') with (pend w) in X3. change (k_lps w0') with (k_lps w) in X4. change (k_epoch w0') with (k_epoch w) in X6.
+  set (news := mknews (Pos.succ (k_next w)) evs) in *.
+  unfold once in HL.
+  assert (Hold : forall y, In y (pend w ++ ([] ++ allprocs (k_lps w)) ++ allmarks (k_lps w)) -> fl (k_flags w1) y = fl (k_flags w) y).
+  { intros y Hy. pose proof (l_lt _ _ _ _ _ _ HL y Hy) as Hlt. rewrite X8.
+    - unfold w0'. cbn [k_flags]. apply fl_set_other. intro E. rewrite E in Hlt. exact (Pos.lt_irrefl _ Hlt).
+    - intros z Hz E. apply (mknews_ids_ge evs _ z) in Hz. rewrite E in Hz. apply (Pos.lt_irrefl (wm_id y)). eapply Pos.lt_le_trans; [exact Hlt|]. eapply Pos.le_trans; [|exact Hz]. apply Pos.lt_le_incl. apply Pos.lt_succ_diag_r. }
+  assert (Him : fl (k_flags w1) im = 2%N).
+  { rewrite X8; [unfold w0'; cbn [k_flags]; apply (fl_set_same (k_flags w) im 2)|].
+    intros z Hz E. apply (mknews_ids_ge evs _ z) in Hz. rewrite E in Hz. cbn in Hz. exact (Pos.lt_irrefl _ (Pos.lt_le_trans _ _ _ (Pos.lt_succ_diag_r _) Hz)). }
+  unfold ini2. cbn [set_lps k_epoch k_flags k_lps]. change (pend (set_lps w1 _)) with (pend w1). rewrite X3, X6, X4.
+  rewrite allprocs_snoc, allmarks_snoc. cbn [x_hist]. rewrite procs_app, marks_app, procs_map_sent, marks_map_sent. cbn [app procs_of marks_of flat_map]. rewrite app_nil_r.
+  split; [exact E0|]. split; [|split; [|split]].
+  - intros y Hy. apply in_app_or in Hy. destruct Hy as [Hy|Hy]; [apply X7; apply in_rev; exact Hy|]. rewrite Hold by (rewrite !in_app_iff; tauto). apply P0. exact Hy.
+  - intros y Hy. apply in_app_or in Hy. destruct Hy as [Hy|[<-|[]]]; [|exact Him]. rewrite Hold by (cbn [app]; rewrite !in_app_iff; tauto). apply P2. exact Hy.
+  - intros y Hy. apply in_or_app. apply in_app_or in Hy. destruct Hy as [Hy|Hy]; [right; apply PM; exact Hy|left; apply -> in_rev; exact Hy].
+  - rewrite app_length. cbn [length]. fold l. intros i Hi. unfold get_lp. cbn [set_lps k_lps].
+    destruct (Nat.lt_ge_cases i l) as [Hlt|Hge].
+    + rewrite app_nth1 by exact Hlt. apply PH. exact Hlt.
+    + assert (i = l) by lia. subst i. rewrite app_nth2 by (fold l; lia). fold l. rewrite Nat.sub_diag. cbn [nth].
+      exists news, im. cbn [x_hist x_epoch]. split; [unfold flat; cbn [flat_map]; rewrite app_nil_r; reflexivity|]. split; [reflexivity|]. split; [|reflexivity].
+      unfold base. cbn [x_logs last]. rewrite app_length, map_length. cbn [length]. rewrite Es0. f_equal. lia.
+Qed.
+
+Lemma w_init_ini2 : ini2 (w_init p).
+Proof.
+  unfold w_init. set (w0 := mkWk (PositiveMap.empty N) [] [] [] [] 1%positive 0 0 0 false).
+  assert (H0 : ini w0 /\ ini2 w0).
+  { split; [split; [apply Loc_empty|split; [split; [intros m []|intros l Hl; cbn in Hl; lia]|split; reflexivity]]|].
+    split; [reflexivity|]. split; [intros y []|]. split; [intros y []|]. split; [intros y []|intros l Hl; cbn in Hl; lia]. }
+  assert (G : forall k w, ini w /\ ini2 w -> ini2 (fold_left (init_lp p) (seq (length (k_lps w)) k) w)).
+  { induction k as [|k IH]; intros w [Hw Hw2]; cbn [seq fold_left]; [exact Hw2|].
+    destruct (init_lp_ini p H_time H_type H_dest (fun me e => app_init p me e Htypes) w Hw) as [H1 H2]. rewrite <- H2. apply IH. split; [exact H1|apply init_lp_ini2; assumption]. }
+  exact (G (N.to_nat (p_lps p)) w0 H0).
+Qed.
+
+Lemma R_init : R (w_init p) (Bridge.a0 cont init0 N0).
+Proof.
+  destruct (w_init_full p H_time H_type H_dest (fun me e => app_init p me e Htypes)) as [F Hlen].
+  destruct (w_init_ini p H_time H_type H_dest (fun me e => app_init p me e Htypes)) as [(_ & _ & _ & Hgv) _].
+  destruct w_init_ini2 as (E0 & P0 & P2 & PM & PH). unfold gv in Hgv. injection Hgv as Hg _.
+  constructor; cbn [Bridge.a0 Abs.hist Abs.pool Abs.antis Abs.nid].
+  - exact F.
+  - exact Hlen.
+  - exact Hg.
+  - split; [exact E0|]. intros l Hl. destruct (PH l ltac:(rewrite Hlen; exact Hl)) as (ms & im & _ & _ & _ & E). exact E.
+  - intros o Ho _. apply PM. exact Ho.
+  - intros y Hy. rewrite (P2 y Hy). discriminate.
+  - apply Bridge.r0.
+  - intros l Hl. destruct (PH l ltac:(rewrite Hlen; exact Hl)) as (ms & im & E1 & E2 & E3 & _). exists ms, im, []. repeat split; assumption.
+  - intros x0. unfold init0. rewrite in_map_iff. split.
+    + intros (y & <- & Hy). exists y. split; [split; [exact Hy|left; apply P0; exact Hy]|reflexivity].
+    + intros (y & [Hy _] & ->). exists y. split; [reflexivity|exact Hy].
+  - intros i. split; [intros []|]. intros (j & (y & _ & H) & _). destruct H as [[Hy Hf]|[Hy Hf]]; [rewrite (P0 y Hy) in Hf; discriminate|rewrite (P2 y Hy) in Hf; destruct Hf; discriminate].
+  - reflexivity.
+Qed.
+
+(* ---------- every script without GVT announcements ---------- *)
+Definition no_gvt_op (o : wop) : bool := match o with OpG _ => false | _ => true end.
+
+Lemma iter_sim k : forall w a, R w a -> exists a', R (iter k (process_msg p ck) w) a'.
+Proof.
+  induction k as [|k IH]; intros w a Hr; cbn [iter]; [exists a; exact Hr|].
+  destruct (process_msg_sim w a Hr) as (a1 & _ & Hr1). exact (IH _ a1 Hr1).
+Qed.
+
+Lemma transfer_sim w a : R w a -> R (wq_transfer w) a.
+Proof.
+  intros Hr. apply (R_perm w (wq_transfer w) a Hr); try reflexivity; [apply transfer_full; exact (r_full _ _ Hr)|apply Permutation_sym; apply transfer_perm].
+Qed.
+
+Lemma run_out_sim fuel : forall w a, R w a -> exists a', R (fst (run_out p ck fuel w)) a'.
+Proof.
+  induction fuel as [|fuel IH]; intros w a Hr; cbn [run_out]; [exists a; exact Hr|].
+  unfold wq_peek. pose proof (transfer_sim w a Hr) as Hr1. destruct (k_heap (wq_transfer w)); cbn [fst]; [exists a; exact Hr1|].
+  destruct (process_msg_sim _ a Hr1) as (a1 & _ & Hr2). exact (IH _ a1 Hr2).
+Qed.
+
+Lemma wstep_sim w a o : no_gvt_op o = true -> R w a -> exists a', R (wstep p ck w o) a'.
+Proof.
+  intros Ho Hr. pose proof (r_full _ _ Hr) as F. pose proof (r_len _ _ Hr) as Hlen.
+  destruct o as [k|k|i| |d|fuel]; cbn [wstep]; try discriminate.
+  - apply (iter_sim k w a Hr).
+  - exists a. destruct (hold_frame k w) as (F1 & F2 & F3 & F4 & F5 & F6). unfold gv in F5. injection F5 as F5 _.
+    apply (R_perm w (hold k w) a Hr); try assumption; [|apply hold_epoch].
+    apply (full_perm p w); try assumption; [apply (hold_good k w (f_good p w F))|unfold gv; destruct (hold_frame k w) as (_ & _ & _ & _ & G5 & _); exact G5].
+  - exists a. destruct (unhold_frame i w) as (F1 & F2 & F3 & F4 & F5 & F6). pose proof F5 as G5. unfold gv in F5. injection F5 as F5 _.
+    apply (R_perm w (unhold i w) a Hr); try assumption; [|apply unhold_epoch].
+    apply (full_perm p w); try assumption. apply (unhold_good i w (f_good p w F)).
+  - exists a. destruct (unhold_all_frame w) as (F1 & F2 & F3 & F4 & F5 & F6). pose proof F5 as G5. unfold gv in F5. injection F5 as F5 _.
+    apply (R_perm w (unhold_all w) a Hr); try assumption; [|apply unhold_all_epoch].
+    apply (full_perm p w); try assumption. apply (unhold_all_good w (f_good p w F)).
+  - destruct (unhold_all_frame w) as (F1 & F2 & F3 & F4 & F5 & F6). pose proof F5 as G5. unfold gv in F5. injection F5 as F5 _.
+    assert (Hr1 : R (unhold_all w) a).
+    { apply (R_perm w (unhold_all w) a Hr); try assumption; [|apply unhold_all_epoch]. apply (full_perm p w); try assumption. apply (unhold_all_good w (f_good p w F)). }
+    apply (run_out_sim fuel _ a Hr1).
+Qed.
+
+Theorem worker_refines_abstract (ops : list wop) : forallb no_gvt_op ops = true ->
+  exists a, R (fold_left (wstep p ck) ops (w_init p)) a.
+Proof.
+  assert (G : forall ops w a, forallb no_gvt_op ops = true -> R w a -> exists a', R (fold_left (wstep p ck) ops w) a').
+  { induction ops0 as [|o r IH]; intros w a Hn Hr; cbn [fold_left]; [exists a; exact Hr|].
+    cbn [forallb] in Hn. apply andb_true_iff in Hn. destruct Hn as [Ho Hn]. destruct (wstep_sim w a o Ho Hr) as (a1 & Hr1). exact (IH _ a1 Hn Hr1). }
+  intros Hn. exact (G ops (w_init p) _ Hn R_init).
+Qed.
+
+(* ---------- the payoff: process.c's histories below any valid bound are the sequential execution ---------- *)
+Definition evc (y : wmsg) : cont := cont_of (wm_ev y).
+(* the processed messages of an LP, LP_INIT excluded *)
+Definition processed (w : worker) (l : nat) : list wmsg := tl (procs_of (x_hist (get_lp w l))).
+
+Theorem worker_below_bound_is_sequential (ops : list wop) (below : cont -> bool) :
+  forallb no_gvt_op ops = true ->
+  (forall c1 c2, ~ Abs.tlt cont tltb c2 c1 -> below c2 = true -> below c1 = true) ->
+  let w := fold_left (wstep p ck) ops (w_init p) in
+  (forall y, In y (pend w) -> below (evc y) = false) ->
+  forall tr, Peel.seqrun cont (Abs.clt cont cltb) lpstate (Bridge.handle_g cont lpstate (ahandle p) below) (AppAbs.s0 p) (Bridge.Pg cont init0 below) tr ->
+  forall l, l < n -> Peel.proj cont l tr = map evc (filter (fun y => below (evc y)) (processed w l)).
+Proof.
+  intros Hn Hb w Hpend tr Hrun l Hl. destruct (worker_refines_abstract ops Hn) as (a & Hr). fold w in Hr.
+  pose proof Hr as [F Hlen Hg _ M0 N5 Hre Hh Hp Ha _].
+  assert (G : Bridge.gvt_ok cont below a).
+  { constructor.
+    - intros x0 Hx. apply Hp in Hx. destruct Hx as (y & [Hy _] & ->). unfold Bridge.belowm. cbn [amsg Abs.mc]. apply Hpend. exact Hy.
+    - intros l0 e He Hd. destruct (Nat.lt_ge_cases l0 n) as [Hl0|Hl0].
+      + destruct (Hh l0 Hl0) as (ms & im & gs & E1 & _ & _ & E4). rewrite E4 in He. apply in_map_iff in He. destruct He as (g & <- & Hgg).
+        assert (Hpr : In (snd g) (allprocs (k_lps w))).
+        { apply in_allprocs_iff. exists l0. split; [rewrite Hlen; exact Hl0|]. rewrite E1. apply in_procs. rewrite procs_flat. cbn [map]. right. apply in_map. exact Hgg. }
+        cbn [ent Abs.em snd] in Hd. apply (doomed_iff w a (snd g) Hr Hpr) in Hd.
+        destruct (l_pr _ _ _ _ _ _ (once_loc w F Hg) (snd g) Hpr) as [[_ Hin]|[[H2 _]|[H5 _]]]; [|congruence|congruence].
+        unfold Bridge.belowe, Abs.con. cbn [ent Abs.em snd amsg Abs.mc]. apply Hpend. exact Hin.
+      + exfalso. (* histories of indexes beyond n are empty in every reachable abstract state *)
+        assert (Hemp : forall a0, areach a0 -> forall k, n <= k -> Abs.hist cont a0 k = []).
+        { intros a0 R0. induction R0 as [|a0 a1 R0 IH S]; intros k Hk; [reflexivity|].
+          destruct S; cbn [Abs.hist]; try (apply IH; exact Hk); unfold Abs.upd; destruct (Nat.eqb_spec k l1); try lia; apply IH; exact Hk. }
+        rewrite (Hemp a Hre l0 Hl0) in He. destruct He. }
+  rewrite (Bridge.time_warp_below_gvt_is_sequential cont cltb clt_irrefl clt_trans clt_total tltb tlt_clt clt_not_tlt tlt_negtrans lpstate n (AppAbs.s0 p) (ahandle p)
+             (avalid p Hvalid) init0 ltac:(intros x0 Hx; unfold init0 in Hx; apply in_map_iff in Hx; destruct Hx as (y & <- & Hy); cbn [amsg Abs.mdest];
+                                          destruct (w_init_full p H_time H_type H_dest (fun me e => app_init p me e Htypes)) as [F0 Hl0]; destruct (f_extra p _ F0) as [Hxp _]; destruct (Hxp y Hy) as [_ Hd]; rewrite Hl0 in Hd; exact Hd)
+             below Hb init0_nodup N0 a init0_lt Hre G tr Hrun l Hl).
+  unfold Bridge.Hg. destruct (Hh l Hl) as (ms & im & gs & E1 & _ & _ & E4). rewrite E4. unfold processed. rewrite E1, procs_flat. cbn [map tl].
+  clear. induction gs as [|g gs IH]; [reflexivity|]. cbn [map filter]. change (Bridge.belowe cont below (ent g)) with (below (evc (snd g))).
+  destruct (below (evc (snd g))); cbn [map]; [change (Abs.con cont (ent g)) with (evc (snd g)); f_equal; exact IH|exact IH].
+Qed.
+
+(* at quiescence (nothing pending anywhere) every LP has processed exactly its sequential dispatch sequence, in that order *)
+Corollary worker_quiescent_is_sequential (ops : list wop) :
+  forallb no_gvt_op ops = true ->
+  let w := fold_left (wstep p ck) ops (w_init p) in
+  pend w = [] ->
+  forall tr, Peel.seqrun cont (Abs.clt cont cltb) lpstate (Bridge.handle_g cont lpstate (ahandle p) (fun _ => true)) (AppAbs.s0 p) (Bridge.Pg cont init0 (fun _ => true)) tr ->
+  forall l, l < n -> Peel.proj cont l tr = map evc (processed w l).
+Proof.
+  intros Hn w Hq tr Hrun l Hl.
+  rewrite (worker_below_bound_is_sequential ops (fun _ => true) Hn (fun _ _ _ _ => eq_refl) ltac:(fold w; rewrite Hq; intros y []) tr Hrun l Hl).
+  fold w. f_equal. clear. induction (processed w l) as [|y r IH]; [reflexivity|]. cbn [filter]. rewrite IH. reflexivity.
+Qed.
 End Sim.
